@@ -87,62 +87,72 @@ func runC17(tier string, seed int64, si, sn int, rep *monitor.Report, note func(
 	for desired := int64(0); desired <= maxD; desired++ {
 		for _, d := range []int64{-5, -1, 0, 1, 2, 3, 19, 20, 21, 40, 100} {
 			for _, rel := range []int64{-2, -1, 0, 1, 2, 50} { // max relative to desired+d
-				idx++
-				if idx%sn != si {
-					continue
-				}
-				max := desired + d + rel
-				if d < 0 {
-					max = desired + rel + 3
-				}
-				if max < desired || max < 1 {
-					continue
-				}
-				fx, err := newAWS(0, max, desired, int(desired), cloudprovider.AWSNodeGroupConfig{}, "subnet-a")
-				if err != nil {
-					rep.Violate(P, "fixture", "cannot build provider: %v", err)
-					continue
-				}
-				from := len(fx.J.Events)
-				evals++
-				err, pv := call(func() error { return fx.NG.IncreaseSize(d) })
-				w := fx.writes(from)
-				legal := d > 0 && desired+d <= max
-				cls := "ok"
-				switch {
-				case d <= 0:
-					cls = "nonpositive"
-				case desired+d > max:
-					cls = "above-max"
-				case desired+d == max:
-					cls = "exactly-max"
-				}
-				rep.Covered(P, fmt.Sprintf("setdesired:%s:desired%s:d%s", cls, bucketN64(desired), bucketN64(d)))
-				if pv != nil {
-					rep.Violate(P, "panic", "IncreaseSize(%d) on desired=%d max=%d panicked: %v", d, desired, max, pv)
-					continue
-				}
-				if !legal {
-					if err == nil {
-						rep.Violate(P, "illegal-increase-accepted", "IncreaseSize(%d) on desired=%d max=%d returned no error", d, desired, max)
+				// the group lists as many instances as it desires, or more (terminating ones are still listed), or fewer
+				// (not launched yet): the target asked for is desired + delta in every case
+				for _, listed := range []int64{0, 2, 7, -1} {
+					idx++
+					if idx%sn != si {
+						continue
 					}
-					if len(w) != 0 {
-						rep.Violate(P, "write-on-rejected-increase", "IncreaseSize(%d) on desired=%d max=%d issued %v", d, desired, max, w)
+					max := desired + d + rel
+					if d < 0 {
+						max = desired + rel + 3
 					}
-					continue
-				}
-				if err != nil {
-					rep.Violate(P, "legal-increase-failed", "IncreaseSize(%d) on desired=%d max=%d failed: %v", d, desired, max, err)
-					continue
-				}
-				if len(w) != 1 || w[0].API != sim.AwsSetDes || w[0].Desired != desired+d || w[0].Target != fx.ASG.Name {
-					rep.Violate(P, "setdesired-not-current-plus-delta", "IncreaseSize(%d) on desired=%d: expected exactly one SetDesiredCapacity(%d), saw %v", d, desired, desired+d, w)
-				}
-				if fx.ASG.Desired < desired {
-					rep.Violate(P, "desired-lowered", "IncreaseSize(%d) lowered desired from %d to %d", d, desired, fx.ASG.Desired)
-				}
-				if evals%97 == 0 {
-					rep.Sample(P, fmt.Sprintf("IncreaseSize(%d) desired=%d max=%d -> %v", d, desired, max, w))
+					if max < desired || max < 1 || desired+listed < 0 {
+						continue
+					}
+					fx, err := newAWS(0, max, desired, int(desired+listed), cloudprovider.AWSNodeGroupConfig{}, "subnet-a")
+					if err != nil {
+						rep.Violate(P, "fixture", "cannot build provider: %v", err)
+						continue
+					}
+					from := len(fx.J.Events)
+					evals++
+					err, pv := call(func() error { return fx.NG.IncreaseSize(d) })
+					w := fx.writes(from)
+					legal := d > 0 && desired+d <= max
+					cls := "ok"
+					switch {
+					case d <= 0:
+						cls = "nonpositive"
+					case desired+d > max:
+						cls = "above-max"
+					case desired+d == max:
+						cls = "exactly-max"
+					}
+					switch {
+					case listed > 0:
+						cls += ":more-instances-than-desired"
+					case listed < 0:
+						cls += ":fewer-instances-than-desired"
+					}
+					rep.Covered(P, fmt.Sprintf("setdesired:%s:desired%s:d%s", cls, bucketN64(desired), bucketN64(d)))
+					if pv != nil {
+						rep.Violate(P, "panic", "IncreaseSize(%d) on desired=%d max=%d panicked: %v", d, desired, max, pv)
+						continue
+					}
+					if !legal {
+						if err == nil {
+							rep.Violate(P, "illegal-increase-accepted", "IncreaseSize(%d) on desired=%d max=%d returned no error", d, desired, max)
+						}
+						if len(w) != 0 {
+							rep.Violate(P, "write-on-rejected-increase", "IncreaseSize(%d) on desired=%d max=%d issued %v", d, desired, max, w)
+						}
+						continue
+					}
+					if err != nil {
+						rep.Violate(P, "legal-increase-failed", "IncreaseSize(%d) on desired=%d max=%d failed: %v", d, desired, max, err)
+						continue
+					}
+					if len(w) != 1 || w[0].API != sim.AwsSetDes || w[0].Desired != desired+d || w[0].Target != fx.ASG.Name {
+						rep.Violate(P, "setdesired-not-current-plus-delta", "IncreaseSize(%d) on desired=%d: expected exactly one SetDesiredCapacity(%d), saw %v", d, desired, desired+d, w)
+					}
+					if fx.ASG.Desired < desired {
+						rep.Violate(P, "desired-lowered", "IncreaseSize(%d) lowered desired from %d to %d", d, desired, fx.ASG.Desired)
+					}
+					if evals%97 == 0 {
+						rep.Sample(P, fmt.Sprintf("IncreaseSize(%d) desired=%d max=%d -> %v", d, desired, max, w))
+					}
 				}
 			}
 		}
@@ -606,7 +616,92 @@ func runC19(tier string, seed int64, si, sn int, rep *monitor.Report, note func(
 			}
 		}
 	}
+	// requests naming the same node more than once: every call that is issued lowers the desired capacity if the cloud
+	// accepts it, so whatever the list looks like no more than desired - min decrementing calls may be issued, and
+	// only for instances backing the given nodes
+	for min := int64(0); min <= 3; min++ {
+		for extra := int64(0); extra <= 4; extra++ {
+			for distinct := 1; distinct <= 3; distinct++ {
+				for dups := 1; dups <= 3; dups++ {
+					for dupAt := 0; dupAt <= distinct; dupAt++ {
+						idx++
+						if idx%sn != si {
+							continue
+						}
+						desired := min + extra
+						if int64(distinct) > desired {
+							continue
+						}
+						evals++
+						c19Dup(rep, min, desired, distinct, dups, dupAt)
+					}
+				}
+			}
+		}
+	}
 	return Outcome{Evaluations: evals}
+}
+
+// c19Dup: the first `distinct` members, with the first of them repeated `dups` more times from position dupAt on.
+func c19Dup(rep *monitor.Report, min, desired int64, distinct, dups, dupAt int) {
+	const P = "C19"
+	fx, err := newAWS(min, desired+5, desired, int(desired), cloudprovider.AWSNodeGroupConfig{}, "subnet-a")
+	if err != nil {
+		return
+	}
+	req := append([]*v1.Node(nil), fx.Nodes[:distinct]...)
+	for k := 0; k < dups; k++ {
+		at := dupAt
+		if at > len(req) {
+			at = len(req)
+		}
+		req = append(req[:at], append([]*v1.Node{fx.Nodes[0]}, req[at:]...)...)
+	}
+	backing := map[string]bool{}
+	for _, n := range fx.Nodes[:distinct] {
+		backing[n.Spec.ProviderID[strings.LastIndex(n.Spec.ProviderID, "/")+1:]] = true
+	}
+	from := len(fx.J.Events)
+	err, pv := call(func() error { return fx.NG.DeleteNodes(req...) })
+	issued, accepted := 0, 0
+	for _, e := range fx.J.Events[from:] {
+		if e.API != sim.AwsTermASG {
+			continue
+		}
+		issued++
+		if e.Applied {
+			accepted++
+		}
+		if !backing[e.Target] {
+			rep.Violate(P, "terminated-instance-not-requested", "DeleteNodes with a repeated node: %s is not an instance backing the given nodes", e)
+		}
+		if e.Decrement == nil || !*e.Decrement {
+			rep.Violate(P, "terminate-without-decrement", "DeleteNodes with a repeated node: %s", e)
+		}
+	}
+	room := desired - min
+	rel := "fits"
+	switch {
+	case room < int64(distinct):
+		rel = "distinct-breaches"
+	case room < int64(len(req)):
+		rel = "only-length-breaches"
+	}
+	rep.Covered(P, fmt.Sprintf("delnodes:repeated-node:distinct%d:len%d:%s", distinct, len(req), rel))
+	desc := fmt.Sprintf("DeleteNodes(%d entries naming %d distinct members) on min=%d desired=%d", len(req), distinct, min, desired)
+	if pv != nil {
+		rep.Violate(P, "panic", "%s panicked: %v", desc, pv)
+		return
+	}
+	if int64(issued) > room {
+		rep.Violate(P, "more-terminate-calls-than-room", "%s: %d decrementing terminate calls issued (%d accepted) with room for %d (err=%v)", desc, issued, accepted, room, err)
+	}
+	if fx.ASG.Desired < min {
+		rep.Violate(P, "desired-below-minimum", "%s: desired capacity fell to %d", desc, fx.ASG.Desired)
+	}
+	if int64(len(req)) <= room && int64(distinct) <= room && accepted < distinct && err == nil {
+		rep.Violate(P, "accepted-request-not-executed", "%s: returned no error but only %d of %d instances were terminated", desc, accepted, distinct)
+	}
 }
 
 func c19Two(rep *monitor.Report, min, desired int64, first, failK, second int) {
